@@ -10,20 +10,25 @@ Open Scope Z_scope.
 
 Inductive pop :=
 | PConst (r : nat) (k : Z)          (* r := LinearPolynomial[int]() + k *)
-| PVar (r : nat) (x : var)          (* r := Px + 0          (BaseDeferred.__add__) *)
+| PVar (r : nat) (x : var)          (* r := Vx + 0          (BaseDeferred.__add__) *)
 | PAdd (r a b : nat)                (* r := ra + rb *)
 | PAddC (r a : nat) (k : Z)         (* r := ra + k   /  k + ra *)
-| PAddV (r a : nat) (x : var)       (* r := ra + Px  /  Px + ra   (get_current_best_estimate of the promise) *)
+| PAddV (r a : nat) (x : var)       (* r := ra + Vx  /  Vx + ra   (get_current_best_estimate of the variable) *)
 | PNeg (r a : nat)
 | PSub (r a b : nat)
-| PSubV (r a : nat) (x : var)       (* r := ra - Px *)
+| PSubV (r a : nat) (x : var)       (* r := ra - Vx *)
 | PRSubC (r a : nat) (k : Z)        (* r := k - ra *)
 | PScale (r a : nat) (k : Z)        (* r := ra * k   /  k * ra *)
 | PSettleC (x : var) (k : Z)        (* Px.settle(k) *)
 | PSettleP (x : var) (a : nat)      (* Px.settle(copy of ra) *)
+| PSettleV (x y : var)              (* Px.settle(Vy): a value defined as another value *)
+| PLatentC (x : var) (k : Z)        (* the late Deferred x will yield k when waited for at depth 0 *)
+| PLatentP (x : var) (a : nat)      (* ... a copy of ra *)
+| PLatentV (x y : var)              (* ... the object Vy *)
+| PAwait (x : var) (b : bool)       (* Vx.is_awaiting := b *)
 | PWait (spec : bool) (a : nat).    (* ra.wait(), inside `with try_compute` when spec *)
 
-Record mstate := MState { regs : list poly; settled : list (var * poly); rets : list (option poly) }.
+Record mstate := MState { regs : list poly; wld : world; rets : list (option Z) }.
 
 Definition getr (st : mstate) (a : nat) : poly := nth a (regs st) (pconst 0).
 Fixpoint setnth {A} (l : list A) (n : nat) (v : A) : list A :=
@@ -32,26 +37,20 @@ Fixpoint setnth {A} (l : list A) (n : nat) (v : A) : list A :=
   | _ :: r, O => v :: r
   | x :: r, S n' => x :: setnth r n' v
   end.
-Definition setr (st : mstate) (r : nat) (p : poly) : mstate := MState (setnth (regs st) r p) (settled st) (rets st).
+Definition setr (st : mstate) (r : nat) (p : poly) : mstate := MState (setnth (regs st) r p) (wld st) (rets st).
 
-Fixpoint lookup (s : list (var * poly)) (x : var) : option poly :=
-  match s with
-  | [] => None
-  | (k, v) :: r => if k =? x then Some v else lookup r x
+(* what `rhs.get_current_best_estimate()` gives for a variable, as a polynomial *)
+Definition estimate (st : mstate) (x : var) : poly :=
+  match lookupv (settled (wld st)) x with
+  | Some (VPoly q) => q
+  | Some (VVar y) => pvar y
+  | None => pvar x
   end.
 
-(* what `rhs.get_current_best_estimate()` gives for a promise, as a polynomial *)
-Definition estimate (st : mstate) (x : var) : poly :=
-  match lookup (settled st) x with Some q => q | None => pvar x end.
-
-(* the value returned by LinearPolynomial._wait when every variable was ready:
-   sum(key.wait() * value for key, value in self.coeffs.items()) + self.constant_term *)
-Definition wait_ret (sigma : var -> option poly) (p : poly) : option poly :=
-  if all_ready sigma p then
-    Some (addc (fold_left (fun acc kv => match sigma (fst kv) with
-                                        | Some q => add acc (scale (snd kv) q)
-                                        | None => acc end) (coeffs p) (pconst 0)) (const p))
-  else None.
+Definition set_settled (st : mstate) (x : var) (v : value) : mstate :=
+  let w := wld st in MState (regs st) (World ((x, v) :: settled w) (awaiting w) (latent w)) (rets st).
+Definition set_latent (st : mstate) (x : var) (v : value) : mstate :=
+  let w := wld st in MState (regs st) (World (settled w) (awaiting w) ((x, v) :: latent w)) (rets st).
 
 Definition mstep (st : mstate) (o : pop) : mstate :=
   match o with
@@ -63,29 +62,45 @@ Definition mstep (st : mstate) (o : pop) : mstate :=
   | PNeg r a => setr st r (neg (getr st a))
   | PSub r a b => setr st r (sub (getr st a) (getr st b))
   | PSubV r a x =>
-      (* -Px is LinearPolynomial({Px: -1}) whatever Px is settled to; the sum then holds the promise itself *)
+      (* -Vx is LinearPolynomial({Vx: -1}) whatever Vx is settled to; the sum then holds the variable itself *)
       setr st r (add (getr st a) (mk [(x, -1)] 0))
   | PRSubC r a k => setr st r (addc (neg (getr st a)) k)
   | PScale r a k => setr st r (scale k (getr st a))
-  | PSettleC x k => MState (regs st) ((x, pconst k) :: settled st) (rets st)
-  | PSettleP x a => MState (regs st) ((x, getr st a) :: settled st) (rets st)
+  | PSettleC x k => set_settled st x (VPoly (pconst k))
+  | PSettleP x a => set_settled st x (VPoly (getr st a))
+  | PSettleV x y => set_settled st x (VVar y)
+  | PLatentC x k => set_latent st x (VPoly (pconst k))
+  | PLatentP x a => set_latent st x (VPoly (getr st a))
+  | PLatentV x y => set_latent st x (VVar y)
+  | PAwait x b =>
+      let w := wld st in
+      MState (regs st) (World (settled w) (if b then x :: awaiting w else filter (fun y => negb (y =? x)) (awaiting w)) (latent w)) (rets st)
   | PWait spec a =>
-      let sigma := lookup (settled st) in
-      let allr := all_ready sigma (getr st a) in
-      let p' := wait_mutation spec sigma (getr st a) in
-      let st' := setr st a p' in
-      MState (regs st') (settled st') (rets st' ++ [if spec && negb allr then None else wait_ret sigma p'])
+      let w := wld st in
+      let '(p1, nr) := substitute w (getr st a) in
+      match nr with
+      | [] =>
+          let '(r, w') := sum_terms spec w (coeffs p1) (const p1) in
+          MState (setnth (regs st) a p1) w' (rets st ++ [r])
+      | _ =>
+          if spec then MState (regs st) w (rets st ++ [None])
+          else
+            let '(p2, w2, raised) := settle_loop 16 w p1 nr in
+            if raised then MState (setnth (regs st) a p2) w2 (rets st ++ [None])
+            else let '(r, w3) := sum_terms false w2 (coeffs p2) (const p2) in
+                 MState (setnth (regs st) a p2) w3 (rets st ++ [r])
+      end
   end.
 
 Definition run_ops (nregs : nat) (ops : list pop) : mstate :=
-  fold_left mstep ops (MState (repeat (pconst 0) nregs) [] []).
+  fold_left mstep ops (MState (repeat (pconst 0) nregs) (World [] [] []) []).
 
 Definition obs_poly := (list (var * Z) * Z)%type.
 Definition poly_obs_eqb (p : poly) (o : obs_poly) : bool := poly_eqb p (Poly (fst o) (snd o)).
-Definition ret_eqb (p : option poly) (o : option obs_poly) : bool :=
+Definition ret_eqb (p : option Z) (o : option Z) : bool :=
   match p, o with
   | None, None => true
-  | Some p, Some o => poly_obs_eqb p o
+  | Some p, Some o => p =? o
   | _, _ => false
   end.
 
@@ -97,7 +112,7 @@ Fixpoint all2 {A B} (f : A -> B -> bool) (a : list A) (b : list B) : bool :=
   end.
 
 (* case: (number of registers, operations, observed registers, observed wait results) *)
-Definition poly_case := (nat * list pop * list obs_poly * list (option obs_poly))%type.
+Definition poly_case := (nat * list pop * list obs_poly * list (option Z))%type.
 Definition judge_poly (c : poly_case) : N :=
   let '(n, ops, oregs, orets) := c in
   let st := run_ops n ops in
